@@ -560,6 +560,9 @@ def b_enumerate(interp, args, kwargs, node):
     if isinstance(v, LazyGen):
         it = v.iterator()
         v = it if isinstance(it, SSeq) else list(it)
+    from .arrays import SArr
+    if isinstance(v, SArr) and not z3.is_int_value(z3.simplify(v.length_term())):
+        v = SSeq(v.length_term(), lambda i, idx, a=v: a.at(i, idx), v.kind)
     if isinstance(v, SSeq):
         return v.enumerate(interp, start)
     return [(start + i, x) for i, x in enumerate(interp.iterate(v, node))]
